@@ -60,6 +60,57 @@ def is_admin(f):
     return val in f["userlist"]
 
 
+NAME_RE = re.compile(r"^[.a-zA-Z0-9_-]+(#ephemeral)?$")
+
+
+def valid_name(s):
+    return isinstance(s, str) and 1 <= len(s) <= 64 and NAME_RE.match(s) is not None
+
+
+def decode_body(raw):
+    """What `json.NewDecoder(req.Body).Decode(&struct{…string fields…})` makes of a body, read independently of
+    the harness: the first JSON value must be an object (trailing bytes are not looked at), a member whose name
+    matches a field (case-insensitively) must be a string or null. Returns the lower-cased members or None."""
+    import json
+    try:
+        v, _ = json.JSONDecoder().raw_decode(raw.lstrip(" \t\r\n"))
+    except ValueError:
+        return None
+    if not isinstance(v, dict):
+        return None
+    out = {}
+    for k, x in v.items():
+        if k.lower() in ("topic", "channel", "action"):
+            if x is None:
+                continue
+            if not isinstance(x, str):
+                return None
+            out[k.lower()] = x
+    return out
+
+
+def well_formed(f):
+    """Is this state-changing request one the property promises to carry out — by the documented API alone
+    (route shape, body members, name syntax), not by looking at the handler or the model? None = no opinion."""
+    segs, m = f["segs"], f["m"]
+    if "xbody" not in f:
+        return None
+    body = decode_body(unhex(f["xbody"]))
+    if (body is not None) != (f.get("body") == "1"):
+        return None      # python and Go read this body differently: no verdict from this clause
+    if m == "DELETE" and len(segs) in (3, 4) and segs[1] == "topics":
+        return True
+    if body is None:
+        return False
+    if m == "POST" and len(segs) == 2 and segs[1] == "topics":
+        return valid_name(body.get("topic", "")) and (body.get("channel", "") == "" or valid_name(body["channel"]))
+    if m == "POST" and len(segs) in (3, 4) and segs[1] == "topics":
+        return body.get("action", "") in ("pause", "unpause", "empty")
+    if m == "DELETE" and len(segs) == 3 and segs[1] == "nodes":
+        return valid_name(body.get("topic", ""))
+    return None
+
+
 def property_fails_on(op, impl):
     """Evaluate C17 on one request and the implementation's own answer. Returns text or None."""
     if op.startswith("fan "):
@@ -81,6 +132,13 @@ def property_fails_on(op, impl):
         else:
             if status == 403:
                 return "%s /%s with an admin identity (or no admin list) answered 403" % (m, "/".join(segs))
+            wf = well_formed(f)
+            if wf is True and status not in (200, 502):
+                return ("%s /%s with an admin identity and a well-formed request (body %r) answered %d: the action was "
+                        "not carried out (recorded upstream requests: %s)" % (m, "/".join(segs), unhex(f.get("xbody", "-")), status, reqs))
+            if wf is False and (status in (200, 502) or reqs != "-"):
+                return ("%s /%s with a malformed request (body %r) answered %d and reached an upstream: %s" % (
+                    m, "/".join(segs), unhex(f.get("xbody", "-")), status, reqs))
             if status in (200, 502):
                 bad = fanout_missing(f, reqs, status)
                 if bad:
